@@ -232,7 +232,7 @@ func (c *Config) SaveManifest(dbPath string) error {
 		return fmt.Errorf("failed to marshal config: %w", err)
 	}
 
-	if err := os.WriteFile(tempPath, data, 0644); err != nil {
+	if err := writeFileSync(tempPath, data, 0644); err != nil {
 		return fmt.Errorf("failed to write manifest: %w", err)
 	}
 
@@ -243,6 +243,24 @@ func (c *Config) SaveManifest(dbPath string) error {
 
 	verifhook.At("manifest.renamed")
 	return nil
+}
+
+// writeFileSync writes data to the named file and syncs it to stable storage
+// before closing it, so that a later rename never publishes unsynced data
+func writeFileSync(name string, data []byte, perm os.FileMode) error {
+	f, err := os.OpenFile(name, os.O_WRONLY|os.O_CREATE|os.O_TRUNC, perm)
+	if err != nil {
+		return err
+	}
+	if _, err := f.Write(data); err != nil {
+		f.Close()
+		return err
+	}
+	if err := f.Sync(); err != nil {
+		f.Close()
+		return err
+	}
+	return f.Close()
 }
 
 // Update applies the given function to modify the configuration
